@@ -3,7 +3,9 @@ mod check;
 mod driver;
 mod known;
 mod props;
+mod spec;
 mod suites;
+mod suites2;
 mod gen;
 mod implside;
 mod sx;
@@ -124,12 +126,18 @@ fn run_check(prop: &str, tier: &str, seed: u64, out: &str) -> i32 {
         "C04" => { props::run_c04(&mut ctx, &known); "every string up to length 3 over a special-character alphabet (exhaustive) and random keyword-adjacent / multi-byte strings, each as condition, pattern, list member, mapping key; plus rules with YAML shapes mutated in every position; non-trivial = the input was accepted by its layer" }
         "C13" => { props::run_c13(&mut ctx, &known); "random rules x example lists (matching, non-matching, empty mapping, scalars, sequences, null) x masks {0,15,2,9}; oracle: failing examples named by validate() == those implied by matches(); non-trivial = at least one example present" }
         "C16" => { props::run_c16(&mut ctx, &known); "random rules x 16 masks x pairs of documents differing only in unaddressed fields; recording Document; non-trivial = the engine asked at least one key" }
+        "C02" => { spec::run_c02(&mut ctx, &known); "random rules (type-directed generator, all key modifiers and pattern kinds) x 5 generated documents; oracle: an independent reference interpreter of the rule language working from the YAML and the document value (three-valued); shapes the reference does not define (odd keys, cast/kind combinations the loader rejects) are skipped and counted; non-trivial = distinct (rule, document) compared" }
         "C05" => { suites::run_c05(&mut ctx, &known); "every condition AST up to 5 nodes (6 in thorough) over identifiers / all() / of() / cast comparisons, printed minimally, fully parenthesised, with random redundant parentheses and spacing, plus keyword-prefixed identifier names and random larger conditions; oracle: parsed tree == tree dictated by the grammar, verdicts equal across variants for all 27 true/false/missing assignments; non-trivial = distinct condition text that loads" }
         "C06" => { suites::run_c06(&mut ctx, &known); "every connective form (binary chain, mapping, sequence, not, all/of over identifier, all/of/list over key) x arity 1..4 x every operand vector in {T,F,M}^k x thresholds 0..k+1, operands realised as one-field predicates, results observed three-valued; complete enumeration; non-trivial = distinct (form, operand vector)" }
         "C07" => { suites::run_c07(&mut ctx, &known); "every needle up to length 2 (3 thorough) and haystack up to length 3 (4) over {a,b,A} x {exact, prefix, suffix, contains, quoted} x i-prefix, singly and in lists of 2, regexes, plus random lists of 2-4 mixed members on longer/multi-byte strings; oracle = std string relation / regex crate; non-trivial = distinct (pattern list, string)" }
         "C09" => { suites::run_c09(&mut ctx, &known); "operator x constant x field value over boundary sets (i64::MIN..u64::MAX, +-0.0, fractions, huge doubles, NaN, inf, numeric and non-numeric strings, booleans, null, containers) completely, plus random 64-bit patterns; oracle = exact integer/rational comparison; casts int()/flt()/str(); non-trivial = distinct (operator, constant, value)" }
         "C10" => { suites::run_c10(&mut ctx, &known); "all paths up to depth 3 (4 thorough) over names {a,b} with optional index 0/1 x documents {a: V, b: 7} for every small shape V (scalars, empty containers, objects, arrays, nested) against a structural resolver; random key strings for totality; nested mapping vs dotted key; nested mapping over arrays of objects; non-trivial = distinct find request" }
         "C17" => { suites::run_c17(&mut ctx, &known); "random operand sets (mapping entries, sequences of mappings, list members, and/or chains in the condition) of size 2..4 x all permutations x 5 documents x masks {0,15}; oracle: truth invariant (and) / three-valued result invariant (or); non-trivial = distinct loaded rule" }
+        "C08" => { suites2::run_c08(&mut ctx, &known); "member lists of length 1..4 (5 thorough) over strings of every shape / regexes / numbers and numeric patterns / booleans / nested mappings x plain list, all(k), of(k,n), all(X), of(X,n) for n = 0..len+1 x 6 documents with scalar or object fields; oracle: the same rule written out with one-member rules and explicit counting; non-trivial = distinct (form, members, document)" }
+        "C11" => { suites2::run_c11(&mut ctx, &known); "Rust scalar/container types -> value kind table (signedness, Option, Vec, HashSet), and random rules x {unoptimised, optimised} x documents (generated + 64-bit extremes) rendered as YAML mapping, serde_json value, HashMap<String, serde_json::Value>, HashMap<String, custom AsValue>, hand-written Object, hand-written Document; oracle: identical verdicts; non-trivial = distinct (rule, document, variant)" }
+        "C12" => { suites2::run_c12(&mut ctx, &known); "random rules: reply of a fresh process == in-process reply; 12 repeated optimise() calls print identically; 16 threads sharing one optimised rule, each matching the documents 3 times in a different order, all agree with the single-threaded verdicts; rule prints the same after matching; non-trivial = distinct loaded rule" }
+        "C14" => { suites2::run_c14(&mut ctx, &known); "random rules + quoting-sensitive pattern strings: serde_yaml::to_string(rule) -> Rule::from_str for the plain rule, the fully optimised rule and the rule optimised without coalesce: same condition/identifier trees, same examples, same verdicts on 4 documents; from_str(text) == from_value(value); non-trivial = distinct loaded rule" }
+        "C15" => { suites2::run_c15(&mut ctx, &known); "random rules over ASCII patterns: harness built with feature ignore_case on rule R vs default build on R with i prepended to every string pattern (and vs the model with icFeature = true): same trees and three-valued results on 4 documents x masks {0,15}; non-trivial = distinct rule that loads" }
         _ => { eprintln!("unknown property {}", prop); return 2; }
     };
     let wall = start.elapsed().as_secs_f64();
